@@ -203,6 +203,29 @@ def check_dispatch_lists(rep, prog, m):
                         bad['props'].append('%s: %s(%s), expected proportions %s' % (tag, nm, ', '.join(args[:D]), want))
                     if args[D:] != ['xx'] * D:
                         bad['grids'].append('%s: grids %s' % (tag, args[D:]))
+    # _admix_phi keeps the array it was given and drops what the pulse returns: every pulse routine it can call must then update
+    # that array in place (and return it)
+    badip = []
+    if not bad['ret']:
+        pmm = prog.mod('dadi.PhiManip')
+        for qn, pf in sorted(pmm.funcs.items()):
+            if not re.fullmatch(r'phi_(\d)D_admix_(?:.*_)?into_(\d)', qn):
+                continue
+            from sa import alpha as _alpha
+            known = _alpha.load_table().get('__params__', {}).get(pmm.rel)
+            it = mx.Interp(prog, pmm, known_functions=set(known) if known is not None else None, symbolic_loops=True)
+            pp = positional_params(pf)
+            try:
+                paths = [p for p in it.run(pf, {p_: (mx.Sym(p_, truth=True) if re.fullmatch(r'f\d?', p_) else mx.Sym(p_)) for p_ in pp}) if p[0][0] == 'return']
+            except mx.Undecidable as e:
+                badip.append('%s is not recognised: %s' % (qn, e))
+                continue
+            for outcome, events, _d in paths:
+                touched = any((e[0] == 'setitem' and mx.show(e[4]) == pp[0]) or (e[0] == 'augitem' and mx.show(e[1]) == pp[0]) for e in events)
+                if mx.show(outcome[1]) != pp[0] or not touched:
+                    badip.append('%s returns %s%s' % (qn, mx.show(outcome[1])[:40], '' if touched else ' and never stores into its density argument'))
+    rep.ob('R-PURE', '_admix_phi in-place contract', not badip, '; '.join(sorted(set(badip))[:2]) if badip else 'the pulse routines update the density they are given and return it; _admix_phi relies on that', rel, ad.lineno,
+           what='the pulse is applied to the array _admix_phi returns (the result of the call is not used, so the routine must work in place)')
     for k, lab, what in (('func', '_admix_phi pulse list', 'the pulse into population d+1 of the D-dimensional density is the routine phi_<D>D_admix_.._into_<d+1>'),
                          ('props', '_admix_phi pulse proportions', 'the proportions are those of the other populations in ascending order, 0 for a population that is not a source'),
                          ('grids', '_admix_phi pulse call', 'pulse receives phi, D-1 proportions and D grids'),
